@@ -313,7 +313,6 @@ func lemma_block_no_leak(i *ignore, meta *ast.Meta) {
 //@   callassert [filter-read-under-the-lock C18] IsEnable: l.mu.g_held
 //@   ensures [lock-released C18] !l.mu.g_held
 //@   only-writers [C18] F:linter.Linter.Errors : Error
-//@   only-writers [C18] E:*linter.LintError : Error
 
 // the sweep: no reachable panic in any function of the package, for any (well-formed) syntax tree
 //@ forall-funcs .* [C11]
